@@ -36,11 +36,13 @@ Definition qualifies_strict (cfg : list bs) (level : N) : Prop :=
   carries level FU2F \/ (In sPassword cfg /\ carries level FPassword) \/
   exists s f, In s cfg /\ asks_for s f /\ carries level f.
 
-(* ---- currently valid credentials *)
-Definition valid_session (now : Z) (t : token) : Prop :=
-  t_signer_trusted t = true /\ t_alg_allowed t = true /\ t_tampered t = false /\
-  t_iss_ok t = true /\ t_aud_ok t = true /\ t_kind t = 0 /\
-  (t_nbf t <= now)%Z /\ (now <= t_exp t)%Z.
+(* ---- currently valid credentials.  A session cookie is this keymaster's own only if its iss claim
+   IS the server's issuer string and the first entry of its aud claim IS that string (equality of
+   byte strings: no prefix, no other port, no other case, no second place in the list). *)
+Definition valid_session (issuer : bs) (now : Z) (w : wtoken) : Prop :=
+  w_signer_trusted w = true /\ w_alg_allowed w = true /\ w_tampered w = false /\
+  w_iss w = issuer /\ (exists rest, w_aud w = issuer :: rest) /\ w_kind w = 0 /\
+  (w_nbf w <= now)%Z /\ (now <= w_exp w)%Z.
 
 (* a client certificate issued to a user by this keymaster: a verified chain of at least two
    certificates whose issuer key is one of the keymaster keys, not the role-requesting CA, leaf
@@ -52,16 +54,29 @@ Definition keymaster_cert (c : tlsinfo) : Prop :=
 Definition ip_cert_ok (c : tlsinfo) : Prop :=
   c_ip_error c = false /\ c_ip_valid c = true /\ c_automation c = true /\ c_revoked c = false.
 
-Inductive proves (now : Z) (q : certreq) (u level : N) : Prop :=
-| P_session t : q_cred q = Cookie t -> valid_session now t -> u = t_sub t -> level = t_level t ->
-                proves now q u level
-| P_password : q_cred q = Basic u true false -> level = bPassword -> proves now q u level
-| P_km_cert c : q_tls q = Some c -> keymaster_cert c -> u = c_cn c -> level = bKMX509 ->
-                proves now q u level
-| P_ip_cert c : q_tls q = Some c -> ip_cert_ok c -> u = c_cn c -> level = bIPCert ->
-                proves now q u level
-| P_both c : q_tls q = Some c -> keymaster_cert c -> ip_cert_ok c -> u = c_cn c ->
-             level = N.lor bKMX509 bIPCert -> proves now q u level.
+(* a certificate whose common name is the empty string names nobody: it is no credential *)
+Definition names_somebody (st : server) (c : tlsinfo) : Prop := s_name st (c_cn c) <> [].
+
+(* some credential among those the request carries (client certificate, session cookie, Basic
+   header: any subset can be present) establishes (u, level) *)
+Inductive proves (st : server) (now : Z) (q : certreq) (u level : N) : Prop :=
+| P_session w : q_cookie q = Some w -> valid_session (issuer_of st) now w -> u = w_sub w -> level = w_level w ->
+                proves st now q u level
+| P_password b : q_basic q = Some b -> b_ok b = true -> b_err b = false -> u = b_user b -> level = bPassword ->
+                 proves st now q u level
+| P_km_cert c : q_tls q = Some c -> names_somebody st c -> keymaster_cert c -> u = c_cn c -> level = bKMX509 ->
+                proves st now q u level
+| P_ip_cert c : q_tls q = Some c -> names_somebody st c -> ip_cert_ok c -> u = c_cn c -> level = bIPCert ->
+                proves st now q u level
+| P_both c : q_tls q = Some c -> names_somebody st c -> keymaster_cert c -> ip_cert_ok c -> u = c_cn c ->
+             level = N.lor bKMX509 bIPCert -> proves st now q u level.
+
+(* what the presented client certificate alone establishes *)
+Inductive cert_proves (st : server) (q : certreq) (u level : N) : Prop :=
+| CP_km c : q_tls q = Some c -> names_somebody st c -> keymaster_cert c -> u = c_cn c -> level = bKMX509 -> cert_proves st q u level
+| CP_ip c : q_tls q = Some c -> names_somebody st c -> ip_cert_ok c -> u = c_cn c -> level = bIPCert -> cert_proves st q u level
+| CP_both c : q_tls q = Some c -> names_somebody st c -> keymaster_cert c -> ip_cert_ok c -> u = c_cn c ->
+              level = N.lor bKMX509 bIPCert -> cert_proves st q u level.
 
 (* ---- SSH extensions: what the certificate must carry under key k.  The last configured pair
    whose expanded key is k decides; otherwise the five standard names map to the empty string;
